@@ -1,7 +1,8 @@
 """C05 - write-once, forward-only recording with atomic rejection (DrfChannel: AppendOnly, RejectAtomic)."""
 from . import chan_common as cc
 
-PREFIXES = ("C05-", "C04-file-outside", "final-file-set", "C01-stored-values", "C01-read-values", "C01-read-blocks")
+PREFIXES = ("C05-", "C04-file-outside", "final-file-set", "C01-stored-values", "C01-read-values", "C01-read-blocks",
+            "C11-write-into-finalized-period-accepted")      # write-once: what is finalized is never written again
 
 
 def run(ctx):
